@@ -9,8 +9,9 @@ from harness import common, tlc
 
 
 def registry():
-    from harness.props import reqwait, errorclass, session, dispatch, handshake, versioning
+    from harness.props import reqwait, errorclass, session, dispatch, handshake, versioning, framing
     return {
+        "C05": framing.check_c05,
         "C13": versioning.check_c13,
         "C03": handshake.check_c03,
         "C04": handshake.check_c04,
